@@ -65,3 +65,13 @@ package validation
 //@ prop C04
 //@ loop 0 invariant[bounds] rangeindex >= -1
 //@ at call append#1 assert[issuer-is-the-part-before-the-first-equals-sign-audience-the-rest] len(components) >= 2
+
+// ------------------------------------------------------------------ C19: what the static upstream handler assumes about its status code is established here
+//@ func validateStaticUpstream
+//@ safety
+//@ nomod
+//@ prop C19 C17
+//@ ensures[config:static-code-is-a-status-code] len(result) == 0 && upstream.Static && upstream.StaticCode != nil ==>
+//@     100 <= deref(upstream.StaticCode) && deref(upstream.StaticCode) <= 999
+//@ ensures[a-code-on-a-non-static-upstream-is-rejected] !upstream.Static && upstream.StaticCode != nil ==> len(result) > 0
+
